@@ -15,12 +15,14 @@ if grep -q "fn main" "$M/demo.rs" && ! grep -q "#\[test\]" "$M/demo.rs"; then
 else
   cp "$M/demo.rs" tests/demo_mut.rs; RUN="cargo test --offline --test demo_mut -- --test-threads=1"
 fi
-timeout 900 $RUN > /tmp/confirm/$name.demo_clean.log 2>&1; demo_clean=$?
+NS="unshare -n bash -c"
+timeout 900 $NS "ip link set lo up; $RUN" > /tmp/confirm/$name.demo_clean.log 2>&1; demo_clean=$?
 git apply "$M/patch.diff" || { echo "{\"name\":\"$name\",\"applies\":false}" > "$OUT"; exit 1; }
 timeout 900 cargo build --offline > /tmp/confirm/$name.build.log 2>&1; build=$?
-timeout 900 $RUN > /tmp/confirm/$name.demo_mut.log 2>&1; demo_mut=$?
+timeout 900 $NS "ip link set lo up; $RUN" > /tmp/confirm/$name.demo_mut.log 2>&1; demo_mut=$?
 rm -f tests/demo_mut.rs examples/demo_mut.rs
-timeout 1800 cargo test --offline --workspace --no-fail-fast -- --test-threads=1 > /tmp/confirm/$name.suite.log 2>&1; suite=$?
+# private network namespace: the repository's remote tests bind fixed loopback ports
+timeout 1800 $NS "ip link set lo up; cargo test --offline --workspace --no-fail-fast -- --test-threads=1" > /tmp/confirm/$name.suite.log 2>&1; suite=$?
 failed=$(grep -E "^test .* FAILED|^test result: FAILED" /tmp/confirm/$name.suite.log | head -5 | tr '\n' ';' | tr '"' "'")
 passed=$(grep -E "^test result: ok" /tmp/confirm/$name.suite.log | sed -E 's/.* ([0-9]+) passed.*/\1/' | paste -sd+ | bc)
 git checkout -- . 
